@@ -323,12 +323,18 @@ def oracle(ctx, scale):
         ms.add_algorithms(alg)
         # conditioning guard on every setup's Hankel matrix
         bad = False
+        gap = 1.0  # smallest relative size of the 2m-th singular value over the setups: what "up to conditioning" means here
         Y = gen.pre_multisetup([d.copy() for d in datasets], [list(r) for r in ref_ind])
         for y in Y:
             H, _ = ssi.build_hank(np.vstack((y["ref"], y["mov"])), y["ref"], br, method)
             sv = np.linalg.svd(H, compute_uv=False)
             if len(sv) < m2 or sv[m2 - 1] / sv[0] < (1e-5 if getattr(S, "weak", None) else 1e-7):
                 bad = True
+            else:
+                gap = min(gap, float(sv[m2 - 1] / sv[0]))
+        # accuracy promised: 1e-7, or what the conditioning allows (rounding eps amplified by 1/gap, with a measured factor
+        # of up to ~50 on the pinned tree; 2e3 leaves a margin) when that is more -- at most 4.4e-6 at the guard's edge
+        TOL = max(1e-7, 2e3 * np.finfo(float).eps / gap)
         if bad:
             ctx.skipped += 1
             ctx.count("skipped_ill_conditioned")
@@ -347,7 +353,7 @@ def oracle(ctx, scale):
             if len(rows) < 2:
                 ctx.violation("ms:pair-missing", f"{cls.__name__}: mode {kk} has no conjugate pole pair at order 2m", inp, observed=[float(x) for x in fn])
                 return
-            if not (efn <= 1e-7 and exi <= 1e-7 and 1 - mc <= 1e-7):
+            if not (efn <= TOL and exi <= TOL and 1 - mc <= TOL):
                 ctx.violation("ms:inaccurate", f"{cls.__name__}: mode {kk}: rel freq err {efn:.2e}, damping err {exi:.2e}, 1-MAC {1 - mc:.2e} (global shape over all sensors)", inp)
                 return
         ctx.count(f"runs_{cls.__name__}" + ("_weakref" if getattr(S, "weak", None) else ""))
@@ -364,7 +370,7 @@ def oracle(ctx, scale):
                 ctx.oracle_cases += 1
                 ctx.count("function_level_mov_first_dicts")
                 for (kk, rows, efn, exi, mc) in sysgen.match_poles(np.asarray(f2), np.asarray(x2), np.asarray(p2), S, np.asarray(l2)):
-                    if len(rows) < 2 or not (efn <= 1e-7 and exi <= 1e-7 and 1 - mc <= 1e-7):
+                    if len(rows) < 2 or not (efn <= TOL and exi <= TOL and 1 - mc <= TOL):
                         ctx.violation("ms:function-dict-order", f"ssi.SSI_multi_setup with per-setup dicts built as {{'mov': .., 'ref': ..}}: mode {kk}: rel freq err {efn:.2e}, "
                                       f"damping err {exi:.2e}, 1-MAC {1 - mc:.2e}", inp)
                         return
@@ -382,7 +388,7 @@ def oracle(ctx, scale):
             return
         for j, i in enumerate(order):
             mc = max(sysgen.mac(r2.Phi[:, j], S.phi[:, i]), sysgen.mac(r2.Phi[:, j], np.conj(S.phi[:, i])))
-            if abs(r2.Fn[j] - S.fn[i]) / S.fn[i] > 1e-7 or abs(r2.Xi[j] - S.xi[i]) > 1e-7 or 1 - mc > 1e-7:
+            if abs(r2.Fn[j] - S.fn[i]) / S.fn[i] > TOL or abs(r2.Xi[j] - S.xi[i]) > TOL or 1 - mc > TOL:
                 ctx.violation("ms:mpe-inaccurate", f"{cls.__name__}.mpe: extracted mode {j}: f {r2.Fn[j]} vs {S.fn[i]}, xi {r2.Xi[j]} vs {S.xi[i]}, MAC {mc} (global shape)", inp)
                 return
         ctx.count("mpe_square_shape_matrix" if S.phi.shape[0] == S.m else "mpe_rectangular_shape_matrix")
@@ -409,7 +415,7 @@ def oracle(ctx, scale):
                     ctx.oracle_cases += 1
                     ctx.count("second_algorithm_same_setup")
                     for (kk, rows, efn, exi, mc) in sysgen.match_poles(r2b.Fn_poles[:, m2], r2b.Xi_poles[:, m2], r2b.Phi_poles[:, m2, :], S, r2b.Lambds[:, m2]):
-                        if len(rows) < 2 or not (efn <= 1e-7 and exi <= 1e-7 and 1 - mc <= 1e-7):
+                        if len(rows) < 2 or not (efn <= TOL and exi <= TOL and 1 - mc <= TOL):
                             ctx.violation("ms:second-algorithm-same-setup", f"{cls2.__name__} run after {cls.__name__} on the same MultiSetup_PreGER object: mode {kk}: "
                                           f"rel freq err {efn:.2e}, damping err {exi:.2e}, 1-MAC {1 - mc:.2e}", inp)
                             return
